@@ -7,7 +7,7 @@ CONSTANTS
   ReqVals = {0, 1, 3}
   UsageVals = {0, 2}
   Times = {0, 1, 2}
-  RIs = {1, 2}
+  RIs = {1}
   MaxClock = 1
   MCEstScheds <- OnlyOne
   MCEstInits <- OnlyNone
